@@ -2,6 +2,7 @@ import SphericalVerif.Gen.Dispatch
 import SphericalVerif.Gen.HKern
 import SphericalVerif.Gen.FillKern
 import SphericalVerif.Gen.HornerKern
+import SphericalVerif.Gen.CPowKern
 import SphericalVerif.Model.Assemble
 import SphericalVerif.Model.W3j
 import SphericalVerif.Spec.Orderings
@@ -136,6 +137,12 @@ def step (line : String) : String :=
   | ["cpow", Mx, re, im, is] =>
     let out := cpowers (⟨bf re, bf im⟩ : Cx Float) Mx.toNat! (fun _ => bf is)
     join (out.map cxs)
+  | ["gencpow", Mx, re, im, is] =>
+    -- the GENERATED `_complex_powers` for one z; the output array is poisoned first (every cell must be written)
+    let M := Mx.toNat!
+    let st0 : HFMem Float := { map := ∅, dflt := Float.ofBits 0x7FF8000000000BAD }
+    let st := Gen.u_complex_powers (α := Float) (fun _ => ⟨bf re, bf im⟩) (M : Int) 3 1 ((M : Int) + 1) (fun _ => bf is) 64 st0
+    join ((Array.range (M+1)).map (fun (i : Nat) => cxs (frdC (α := Float) st 3 ((i : Nat) : Int))))
   | ["dfull", L, ellmin, c, s, dflt] =>
     let L := L.toNat!
     let st := runHF L L (bf c) (bf s) (bf dflt)
